@@ -262,10 +262,10 @@ class C12(Prop):
                   'validated outcome table and the trace say happened; the same world run with -j N or with layers '
                   'resumed in subprocesses must satisfy the same oracle and report the same Total.')
     level_note = ('Trusts the outcome table (validated against stdlib unittest at start-up). Under --repeat the Total '
-                  'tests figure may be per-iteration or executed count; import errors are not generated here; -x is '
-                  'owned by C16.')
+                  'tests figure may be per-iteration or executed count; with -x the expectation is restricted to '
+                  'the tests that started (the stopping itself is C16\'s business).')
     rule = ('Hypothesis worlds (0..4 layers, 1..2 modules, tests of 15 outcome kinds, faulty layer hooks), -v 0..3, '
-            '--repeat 1..3, --buffer; procs part runs each world sequentially and with -j2/-j3/resumed. Non-trivial = '
+            '--repeat 1..3, --buffer, -x; procs part runs each world sequentially and with -j2/-j3/resumed. Non-trivial = '
             '>=2 layers with tests, >=1 bad and >=1 skipped test (inproc) / tests really ran in child processes '
             '(procs). Distinct by hash of (spec, options).')
     assumptions = ('"tests run" counts tests attempted (started or skipped)',
